@@ -38,6 +38,9 @@ pub enum Mal {
     /// a body that is well-formed for the *other* typed-body content type, labelled as such: form-encoded
     /// to the endpoint declaring JSON (true) or JSON to the endpoint declaring form encoding (false)
     CrossEncoded { to_json_endpoint: bool },
+    /// the data-carrying variant of a mixed enum named in a path segment (only if such a parameter
+    /// type got past registration)
+    MixedEnumVariant,
 }
 
 #[derive(Clone, Debug, Serialize, Deserialize)]
@@ -192,6 +195,7 @@ fn mal_strategy() -> impl Strategy<Value = Mal> {
         1 => (0u8..9).prop_map(|field| Mal::PageMissing { field }),
         1 => (0u8..13).prop_map(|field| Mal::PageDup { field }),
         2 => any::<bool>().prop_map(|to_json_endpoint| Mal::CrossEncoded { to_json_endpoint }),
+        1 => Just(Mal::MixedEnumVariant),
     ]
 }
 
@@ -474,6 +478,11 @@ pub fn render_bad(c: &BadCase) -> Option<BadWire> {
             class = "page-duplicate".into();
             desc = format!("first-page parameter {} given twice", f);
         }
+        Mal::MixedEnumVariant => {
+            op = "ve_mixed";
+            class = "path:mixed-enum-data-variant".into();
+            desc = "path variable sel = \"Id\" (a variant that carries a u32, which a path segment cannot supply)".into();
+        }
         Mal::CrossEncoded { to_json_endpoint } => {
             let fs = &c.form;
             if *to_json_endpoint {
@@ -554,6 +563,7 @@ pub fn render_bad(c: &BadCase) -> Option<BadWire> {
         "ve_path" => ("GET", format!("/e/path/{}?tag={}", path_segs.join("/"), tag), None),
         "ve_query" => ("GET", format!("/e/query?{}", simple_pairs(&qpairs)), None),
         "ve_page" => ("GET", format!("/e/page?{}", simple_pairs(&qpairs)), None),
+        "ve_mixed" => ("GET", format!("/e/mixed/Id?tag={}", tag), None),
         "ve_cwild" => ("GET", format!("/e/cwild/{}?tag={}", wild_path.clone().unwrap_or_default(), tag), None),
         "ve_uwild" => ("GET", format!("/e/uwild/{}?tag={}", wild_path.clone().unwrap_or_default(), tag), None),
         "ve_json" => ("POST", format!("/e/json?tag={}", tag), Some(body_override.unwrap_or_else(|| join_json(&jfields).into_bytes()))),
@@ -623,6 +633,10 @@ fn render_good(c: &BadCase, op: &str) -> Wire {
         "ve_query" => EchoReq::Query(c.query.clone()),
         "ve_page" => EchoReq::Page(c.query.clone(), None),
         "ve_flatjson" => EchoReq::FlatJson(c.form.clone(), fr),
+        "ve_mixed" => {
+            let bytes = http1::build_request("GET", "/e/mixed/All?tag=c10", &[], None);
+            return Wire { parts: Default::default(), bytes, cuts: vec![], method: "GET", target: "/e/mixed/All?tag=c10".into(), expected: serde_json::Value::Null, op: "ve_mixed" };
+        }
         "ve_cwild" | "ve_uwild" => match &c.mal {
             Mal::WildElem { uuid: true, good, .. } => EchoReq::UuidWild(good.iter().map(|g| wild_uuid(*g)).collect()),
             Mal::WildElem { good, .. } => EchoReq::ColorWild(good.iter().map(|g| (*g % 3) as u8).collect()),
@@ -640,6 +654,15 @@ fn check_bad(live: &LiveEcho, rt: &tokio::runtime::Runtime, c: &BadCase, st: &mu
         st.count("not-applicable");
         return Ok(());
     };
+    if bw.op == "ve_mixed" {
+        // does the endpoint exist at all?  (registration refuses it on a correct tree)
+        let probe = http1::build_request("GET", "/e/mixed/All?tag=c10", &[], None);
+        let r = rt.block_on(http1::oneshot(live.addr, &probe, false, Duration::from_secs(10))).map_err(|e| Failure::new("no-response-valid", e))?;
+        if r.status == 404 {
+            st.count("mixed-enum-endpoint-refused-at-registration");
+            return Ok(());
+        }
+    }
     let good = render_good(c, bw.op);
     let ctx = live.server.app_private();
     rt.block_on(async {
